@@ -240,7 +240,8 @@ def step (s : DState) (toks : List String) : DState × String :=
     let r := checkMtlsEnabledIn view (drTLSMode d.1 d.2 80) (tokBool epTLS) w (port.toNat?.getD 0)
     let vi := versionIndex s.vers (canonVersion view.version)
     ({ s with vers := vi.2 },
-     s!"{boolTok r} BE={(bestEffortServiceMode view w.ns).tok} NS={(view.namespaceMode w.ns).tok} V={vi.1}")
+     let dp := joinOrDash (sortStrings ((sidecarDeps s.root s.pas (dec clientNs) (decList imported)).map (fun k => s!"{k.1}/{k.2}")))
+     s!"{boolTok r} BE={(bestEffortServiceMode view w.ns).tok} NS={(view.namespaceMode w.ns).tok} V={vi.1} DP={dp}")
   | ["cv", i, j, k] =>
     -- direct call of convertPeerAuthentication on policies picked by index
     match s.pas[i.toNat?.getD 0]? with
@@ -263,29 +264,34 @@ def step (s : DState) (toks : List String) : DState × String :=
     let w : Workload := { ns := dec ns, labels := parseLabels labels }
     (s, showInbound s.root s.pas w [] false)
   | ["cl", ns, labels, clientNs, kind, port] =>
-    -- the composed client decision end to end (CDS + EDS on the client, LDS on the server), one HTTP service on `port`
+    -- the composed client decision end to end (CDS + EDS on the client, LDS on the server), one HTTP service on
+    -- `port` (service port 81 has TARGET port 8081)
     let w : Workload := { ns := dec ns, labels := parseLabels labels }
     let p := port.toNat?.getD 80
+    let tp := if p == 81 then 8081 else p
     let view := sidecarView s.root s.pas (dec clientNs) [w.ns]
     let external := kind == "external"
-    let passthrough := kind == "passthrough" || kind == "ptdisabled" || kind == "drpassthrough" || kind == "drptdisabled"
-    let epDisabled := kind == "ptdisabled" || kind == "drptdisabled"
+    let passthrough := kind == "passthrough" || kind == "ptdisabled" || kind == "ptnoistio" || kind == "drpassthrough" || kind == "drptdisabled"
+    let epDisabled := kind == "ptdisabled" || kind == "drptdisabled" || kind == "ptnoistio"
     let be := bestEffortFull view w.ns external passthrough [epDisabled]
-    -- an explicit DestinationRule TLS mode decides both the cluster socket and the endpoint label
-    let dr : Option DRMode := if kind == "drdisable" then some .disable else if kind == "dristio" then some .istioMutual else none
+    -- an explicit DestinationRule TLS mode (rule level, or of the selected subset, or the rule level a subset
+    -- without TLS settings falls back to) decides both the cluster socket and the endpoint label
+    let dr : Option DRMode :=
+      if kind == "drdisable" || kind == "drsubsetdisable" then some .disable
+      else if kind == "dristio" || kind == "drsubsetfallback" then some .istioMutual else none
     let c := match dr with
       | some m => m == .istioMutual
-      | none => !external && clusterHasAutoMTLS be
+      | none => !external && kind != "noauto" && clusterHasAutoMTLS be   -- noauto: MeshConfig.enableAutoMtls = false
     let noEds := passthrough   -- resolution NONE / PASSTHROUGH load balancer: an ORIGINAL_DST cluster, no EDS endpoints
-    let e := if noEds then "-" else
-      boolTok (checkMtlsEnabledIn view dr (kind != "noistio" && !epDisabled) w p)
-    let sv := joinOrDash (sortStrings (((inboundChains s.root s.pas w [{ port := p, target := p, proto := .http }]).filter
-      (fun c => c.dst == some p)).map LChain.show))
+    let sidecar := kind != "noistio" && kind != "k8snoistio" && !epDisabled   -- k8s / k8snoistio: a Kubernetes Service + pod
+    let e := if noEds then "-" else boolTok (checkMtlsEnabledIn view dr sidecar w tp)
+    let sv := joinOrDash (sortStrings (((inboundChains s.root s.pas w [{ port := p, target := tp, proto := .http }]).filter
+      (fun c => c.dst == some tp)).map LChain.show))
     -- X: the transport socket Envoy selects for the endpoint is TLS (first matching transport socket match)
     let x := if noEds then "-" else
       match dr with
       | some m => boolTok (m == .istioMutual)
-      | none => boolTok (c && checkMtlsEnabledIn view none (kind != "noistio" && !epDisabled) w p)
+      | none => boolTok (c && checkMtlsEnabledIn view none sidecar w tp)
     (s, s!"C={boolTok c} E={e} X={x} BE={be.tok} S={sv}")
   | ["ilh", ns, labels] =>
     let w : Workload := { ns := dec ns, labels := parseLabels labels }
@@ -296,6 +302,28 @@ def step (s : DState) (toks : List String) : DState × String :=
   | ["ils", ns, labels, ingress, merge, icNone] =>
     let w : Workload := { ns := dec ns, labels := parseLabels labels }
     (s, showInboundWith s.root s.pas w inboundSvcPorts (parseIngress ingress) (merge == "1") (icNone == "1"))
+  | ["ils", ns, labels, ingress, merge, icNone, unpriv] =>
+    -- interception NONE and an unprivileged proxy: ingress listeners on privileged ports are skipped (CanBindToPort)
+    let w : Workload := { ns := dec ns, labels := parseLabels labels }
+    let ing := parseIngress ingress
+    let ing' := if icNone == "1" then ing.filter (canBindIngress (unpriv == "1")) else ing
+    (s, showInboundWith s.root s.pas w inboundSvcPorts ing' (merge == "1") (icNone == "1"))
+  | ["ilt", ns, labels] =>
+    -- interception mode TPROXY: the same filter chains as with REDIRECT
+    let w : Workload := { ns := dec ns, labels := parseLabels labels }
+    (s, showInbound s.root s.pas w [] false)
+  | ["ilr", ns, labels, svcs] =>
+    -- arbitrary services `port:target:PROTOCOL`, also on reserved target ports: such a service gets no chain
+    -- config (CanBindToPort) and still counts as a service target for needPerPortPassthroughFilterChain
+    let w : Workload := { ns := dec ns, labels := parseLabels labels }
+    let services : List SvcPort := (decList svcs).filterMap fun e =>
+      match e.splitOn ":" with
+      | [p, t, proto] => (lprotoOf proto).map (fun lp => ({ port := p.toNat?.getD 0, target := t.toNat?.getD 0, proto := lp } : SvcPort))
+      | _ => none
+    let l := inboundChains s.root s.pas w (chainConfigs (services.filter canBindService) [] false) (declaredPorts services [])
+    let dup := if dupMatches l == 0 then [] else [s!"dupmatch:{dupMatches l}"]
+    let ti := (inboundDests.filter (tlsInspectorOn l)).map (fun d => s!"ti:{d}")
+    (s, joinOrDash (sortStrings ("bh:15006.0" :: dup ++ ti ++ l.map LChain.show)))
   | ["ilp", ns, labels, protos] =>
     -- other service protocols / fewer or no services
     let w : Workload := { ns := dec ns, labels := parseLabels labels }
